@@ -457,4 +457,96 @@ def instRun (D : DictDecl) (stack0 : Bytes) (vars : List HVar) : Inst → List S
 
 def emptySys : Sys := fun _ => { dict := [], hv := [] }
 
+/-! ### the objects Python keeps
+
+`table[k]`, `table.pop(k)` and every key that `list(table)` yields are `Structure` objects whose `data` is a
+buffer of their own, filled by the system call (`bpf._lookup_elem`, `bpf.get_next_key`: a fresh `bytearray`
+per call).  The caller may keep them while it goes on using this or another table, may change their members
+(`obj.m_j = x`: `pack_into` on the object's own buffer) and may store a kept value again (`table[k] = obj`:
+`update_elem(fd, key.data, obj.data)`).  The heap lists the buffers of the kept objects, oldest first. -/
+
+structure Heap where
+  vals : List Bytes
+  keys : List Bytes
+deriving Repr
+
+/-- the value objects an operation hands to Python -/
+def keptValsAt (m : KMap) : Option Bytes → List Bytes
+  | some kb => (lookup m kb).toList
+  | none => []
+
+def keptVals (D : DictDecl) (m : KMap) : Op → List Bytes
+  | .pyGet k => keptValsAt m (pyStruct D.keyFmts k)
+  | .pyPop k => keptValsAt m (pyStruct D.keyFmts k)
+  | _ => []
+
+/-- the key objects an operation hands to Python -/
+def keptKeys (m : KMap) : Op → List Bytes
+  | .pyIter => m.map Prod.fst
+  | _ => []
+
+def Heap.keep (h : Heap) (D : DictDecl) (s : Nat → Inst) : SOp → Heap
+  | .dict j o => { vals := h.vals ++ keptVals D (s j).dict o, keys := h.keys ++ keptKeys (s j).dict o }
+  | _ => h
+
+/-- `obj.m_j = x` on the object's own buffer: `pack_into(fmt, data, rel, x)`.  CPython's `pack_into` clears the
+target bytes before it converts the argument, so an assignment that raises `struct.error` (`false`) leaves the
+member zero; a member that does not exist is an `AttributeError` on the way, nothing is written -/
+def setMemberAt (data : Bytes) (off : Nat) (x : Int) : Option Fmt → Bytes × Bool
+  | none => (data, false)
+  | some f => if f.fits x then (setRange data off (f.enc x), true) else (setRange data off (zeros f.size), false)
+
+def setMember (fs : List Fmt) (data : Bytes) (j : Nat) (x : Int) : Bytes × Bool :=
+  setMemberAt data (structSize (fs.take j)) x fs[j]?
+
+inductive POp where
+  | sys (op : SOp)                                 -- any operation; Python keeps every object it returns
+  | recheck                                        -- look at the members of every kept object again
+  | modVal (i j : Nat) (x : Int)                   -- `vals[i mod n].m_j = x`
+  | modKey (i j : Nat) (x : Int)                   -- `keys[i mod n].m_j = x`
+  | store (inst : Nat) (k : List Int) (i : Nat)    -- `table[Key(k)] = vals[i mod n]` on program `inst`
+deriving Repr
+
+inductive POut where
+  | sys (o : SOut)
+  | held (vals keys : List (List Int))
+  | ok | structError | noObject
+  | stored (o : Out)
+deriving Repr, DecidableEq
+
+def modObj (fs : List Fmt) (objs : List Bytes) (i j : Nat) (x : Int) : List Bytes × POut :=
+  if objs.length = 0 then (objs, .noObject)
+  else (objs.set (i % objs.length) (setMember fs (objs.getD (i % objs.length) []) j x).1,
+        if (setMember fs (objs.getD (i % objs.length) []) j x).2 then .ok else .structError)
+
+/-- `update_elem(fd, Key(k).data, obj.data)` -/
+def storeRaw (D : DictDecl) (m : KMap) (vb : Bytes) : Option Bytes → KMap × Out
+  | none => (m, .structError)
+  | some kb =>
+    ((update D.maxEntries m kb vb 0).1,
+     if (update D.maxEntries m kb vb 0).2 = 0 then .ok
+     else if (update D.maxEntries m kb vb 0).2 = -E2BIG then .full else .osError)
+
+abbrev PState := Sys × Heap
+
+def pStep (D : DictDecl) (stack0 : Bytes) (vars : List HVar) (w : PState) : POp → PState × POut
+  | .sys op => (((sysStep D stack0 vars w.1 op).1, w.2.keep D w.1 op), .sys (sysStep D stack0 vars w.1 op).2)
+  | .recheck => (w, .held (w.2.vals.map (readMembers 0 D.valFmts)) (w.2.keys.map (readMembers 0 D.keyFmts)))
+  | .modVal i j x => ((w.1, { w.2 with vals := (modObj D.valFmts w.2.vals i j x).1 }), (modObj D.valFmts w.2.vals i j x).2)
+  | .modKey i j x => ((w.1, { w.2 with keys := (modObj D.keyFmts w.2.keys i j x).1 }), (modObj D.keyFmts w.2.keys i j x).2)
+  | .store inst k i =>
+    if w.2.vals.length = 0 then (w, .noObject)
+    else
+      ((setInst w.1 inst { w.1 inst with dict :=
+          (storeRaw D (w.1 inst).dict (w.2.vals.getD (i % w.2.vals.length) []) (pyStruct D.keyFmts k)).1 }, w.2),
+       .stored (storeRaw D (w.1 inst).dict (w.2.vals.getD (i % w.2.vals.length) []) (pyStruct D.keyFmts k)).2)
+
+def pRun (D : DictDecl) (stack0 : Bytes) (vars : List HVar) : PState → List POp → PState × List POut
+  | w, [] => (w, [])
+  | w, op :: ops =>
+    ((pRun D stack0 vars (pStep D stack0 vars w op).1 ops).1,
+     (pStep D stack0 vars w op).2 :: (pRun D stack0 vars (pStep D stack0 vars w op).1 ops).2)
+
+def emptyHeap : Heap := ⟨[], []⟩
+
 end Ebv.HashVars
